@@ -170,6 +170,14 @@ def real_cases(ctx, marker_dir):
                 # printf with literal newlines inside single quotes is fine for the shell; the act phase source is one line per
                 # instruction line, so encode newlines through printf escapes instead
                 act = '$ printf %s; printf %s >&2; exit %d' % (sh_printf(out), sh_printf(err), code)
+                exp_out = out
+                if rng.chance(0.3):
+                    # the action is a program with a transformation of its output (another execution path of the actor):
+                    # result/stdout holds the TRANSFORMED output, result/stderr and exit-code are the program's own
+                    feats.append('act program with -transformed-by')
+                    act = '%% sh -c "printf %s; printf %s >&2; exit %d"\n    -transformed-by char-case -to-upper' % (
+                        sh_printf(out), sh_printf(err), code)
+                    exp_out = out.upper()
                 expect_sds, expect_act = True, True
                 if ending == 'pass':
                     asserts += ['exit-code == %d' % code]
@@ -206,7 +214,7 @@ def real_cases(ctx, marker_dir):
                 text = '[setup]\n%s\n[act]\n%s\n[before-assert]\n%s\n[assert]\n%s\n[cleanup]\n%s\n' % (
                     '\n'.join(setup), act, '\n'.join(before), '\n'.join(asserts), '\n'.join(cleanup))
                 cases.append({'name': ending, 'features': feats, 'keep': keep, 'text': text, 'expect_sds': expect_sds,
-                              'expect_act': expect_act, 'out': out, 'err': err, 'code': code, 'tmp_files': tmp_files})
+                              'expect_act': expect_act, 'out': exp_out, 'err': err, 'code': code, 'tmp_files': tmp_files})
     return cases
 
 
